@@ -7431,9 +7431,28 @@ func (l *Lowerer) lowerNegatedLiteral(lit *parser.Literal) (ir.ExpressionHandle,
 	return posHandle, nil
 }
 
+// isUserDeclaredCallee reports whether name is a function or struct declared by
+// the module; such a declaration hides the predeclared function of that name.
+func (l *Lowerer) isUserDeclaredCallee(name string) bool {
+	if _, ok := l.functions[name]; ok {
+		return true
+	}
+	if handle, ok := l.types[name]; ok && int(handle) < len(l.module.Types) {
+		_, isStruct := l.module.Types[handle].Inner.(ir.StructType)
+		return isStruct
+	}
+	return false
+}
+
 // lowerCall converts a call expression to IR.
 func (l *Lowerer) lowerCall(call *parser.CallExpr, target *[]ir.Statement) (ir.ExpressionHandle, error) {
 	funcName := call.Func.Name
+
+	// A module-scope function or struct shadows a predeclared function of the
+	// same name (struct fwidthCoarse { .. } ... fwidthCoarse(3) is a constructor).
+	if l.isUserDeclaredCallee(funcName) {
+		goto userDeclared
+	}
 
 	// Check if this is a built-in function (vec4, vec3, etc.)
 	if l.isBuiltinConstructor(funcName) {
@@ -7533,10 +7552,11 @@ func (l *Lowerer) lowerCall(call *parser.CallExpr, target *[]ir.Statement) (ir.E
 		return 0, nil // Barriers don't return a value
 	}
 
+userDeclared:
 	// Check if this is a type constructor (struct, vector, matrix, scalar, or type alias).
 	// This includes lazily-registered types like f16, f64, i64, u64.
 	typeHandle, typeExists := l.types[funcName]
-	if !typeExists {
+	if _, isFunc := l.functions[funcName]; !typeExists && !isFunc {
 		// Try resolving as a named type (triggers lazy registration for f16, i64, etc.)
 		resolved, err := l.resolveNamedType(&parser.NamedType{Name: funcName})
 		if err == nil {
